@@ -142,13 +142,20 @@ func nameText(n *gen.Node) string {
 func init() {
 	core.Register(&core.Check{
 		ID:   "C14",
-		Rule: "cases = known-finding witnesses ++ generated namespace programs (G6: none / semicolon / braced namespaces, several per file; use / use function / use const / group / mixed-group imports with and without aliases, names and aliases from a small pool in PRNG letter case so that imports hit; declarations of all five kinds; references of all name forms in extends, implements, interface extends, new, static call/property/constant, instanceof, catch (multi), parameter/return/property types incl. nullable and scalar names, closures, arrow functions, function calls, constant fetches, defaults, trait use and adaptations, self/parent/true/false/null) in a PRNG layout; expected map from an independent implementation of PHP's rules; non-trivial = program accepted and map compared; distinct by (source, version)",
+		Rule: "cases = known-finding witnesses ++ generated namespace programs (G6: none / semicolon / braced namespaces, several per file; use / use function / use const / group / mixed-group imports with and without aliases, names and aliases from a small pool in PRNG letter case so that imports hit; declarations of all five kinds; references of all name forms in extends, implements, interface extends, new, static call/property/constant, instanceof, catch (multi), parameter/return/property types incl. nullable and scalar names, closures, arrow functions, function calls, constant fetches, defaults, trait use and adaptations, self/parent/true/false/null) in a PRNG layout; expected map from an independent implementation of PHP's rules; the first 3 (quick) / 30 (thorough) cases run the real CLI with -r -p over a directory of 150 / 500 such programs (7.4 and 5.6, GOMAXPROCS 1/4/16) and compare the names printed per file with the resolver's result for that file alone; non-trivial = program accepted and map compared; distinct by (source, version)",
 		Assumptions: []string{
 			"nsModel (gen/nsprog.go) is the specification: php.net 'Name resolution rules' for compile-time resolution; function/constant fallback to the global namespace is a run-time matter and not part of the map",
 			"a special name may be absent from the map or mapped to itself in any letter case",
 		},
 		Plan: func(p core.Params) int { return p.Pick(200000, 1500000) },
-		Run:  func(c *core.Ctx, idx int) { c14Case(c, idx) },
+		Run: func(c *core.Ctx, idx int) {
+			if idx < c.P.Pick(3, 30) {
+				c14CLI(c, idx)
+				return
+			}
+			c14Case(c, idx)
+		},
+		CaseCPU: 120,
 		RunWitness: func(c *core.Ctx, w core.Witness) {
 			// witnesses carry the expected entries as config: "expect" = kind@start=value;...
 			pr := obs.Parse(w.Src, w.Ver, true)
